@@ -304,8 +304,7 @@ func (fs *fsMutable) MkDir(
 
 	err = fs.preCreateCheck(op.Parent, lk)
 	if err != nil {
-		fs.lock.Unlock()
-		return
+		return // the deferred Unlock releases the lock
 	}
 
 	err = fs.createNode(lk, op.Parent, op.Name, &op.Entry, fuseutil.DT_Directory, false)
